@@ -27,8 +27,8 @@ RULE = ("Cases: (document pair as JSON or XML files) x option vector (dict strat
         "incl. quoted; memo caches excluded) is taken before and after diff(), get_all_edits() and rendering in every "
         "registered output format and must be identical; 'repeat' - the same command line is run 3x in one process "
         "with different amounts of intervening allocation and a gc.collect(), stdout bytes and exit status must be "
-        "identical; 'seeds' - the parent generates the cases once, K child interpreters (PYTHONHASHSEED 0,1,2,.. and "
-        "'random'; K=4 quick / 12 thorough) replay them through main() and must produce identical (status, stdout "
+        "identical; 'seeds' - the parent generates the cases once, K child interpreters (PYTHONHASHSEED 0,1,2,.. plus "
+        "values derived from VERIF_SEED; K=4 quick / 12 thorough) replay them through main() and must produce identical (status, stdout "
         "digest) lists; a sample additionally runs as true `python -m graphtage` subprocesses. Non-trivial: the script "
         "has >= 2 removes or inserts inside one mapping (where iteration order can show). Distinct by case hash.")
 ASSUMPTIONS = [
@@ -175,7 +175,8 @@ def run_job(job, seed, sink):
         return
     batch = []
     hyp_drive(cases('seeds'), job['n'], seed, batch.append)
-    seeds = SEEDS[job['tier']]
+    # 'random' entries are replaced by values derived from the run's seed, so a run stays a pure function of VERIF_SEED
+    seeds = [sd if sd != 'random' else str((seed * 2654435761 + 97 * i) % 4294967295) for i, sd in enumerate(SEEDS[job['tier']])]
     outs = spawn_children(batch, seeds)
     for i, case in enumerate(batch):
         _PRE[case_hash(case)] = [o[i] for o in outs]
@@ -326,7 +327,7 @@ def check(case):
     else:
         res = _PRE.get(case_hash(case))
         if res is None:
-            res = [o[0] for o in spawn_children([case], SEEDS['quick'], parallel=4)]
+            res = [o[0] for o in spawn_children([case], ['0', '1', '2', '3141592653'], parallel=4)]
         if any(x != res[0] for x in res[1:]):
             out.fail('hash-seed-changes-output', f"args {case['args']}: (status, stdout digest, exception, length) per PYTHONHASHSEED: {res}")
         out.nontrivial = mapping_multi(case)
